@@ -102,7 +102,19 @@ Definition C10_idempotent_statement : Prop :=
   forall tg ah tg' ah' t r, resolve tg ah t = Some r -> std_attrs t -> valid_target tg' = true ->
     resolve tg' ah' r = Some r.
 
+(* calls on one resolver instance are independent: the k-th result of a sequence of calls is what
+   a single call gives on the k-th tree.  Immediate in this pure model ([resolve_calls] gives a call
+   no access to the previous ones: the code starts every visit from a new context and keeps no
+   memory on the instance); what ties it to the code is the call-sequence correspondence and the
+   history oracle of harness/c10.py (one instance reused on 2-6 trees vs a fresh resolver). *)
+Definition C10_calls_independent_statement : Prop :=
+  forall tg ah ts k t, nth_error ts k = Some t ->
+    nth_error (resolve_calls tg ah ts) k = Some (resolve tg ah t).
+
 (* ---- proofs (lemmas live in proofs/ResolverProofs.v) *)
+Theorem C10_calls_independent : C10_calls_independent_statement.
+Proof. intros tg ah ts k t H. unfold resolve_calls. rewrite nth_error_map, H. reflexivity. Qed.
+
 Lemma resolve_valid tg ah t r : resolve tg ah t = Some r -> valid_target tg = true.
 Proof. unfold resolve. destruct (valid_target tg); [reflexivity|discriminate]. Qed.
 
@@ -232,3 +244,4 @@ Print Assumptions C10_same_meaning.
 Print Assumptions C10_same_meaning_explicit.
 Print Assumptions C10_meaning_needs_std_attrs.
 Print Assumptions C10_idempotent.
+Print Assumptions C10_calls_independent.
